@@ -240,7 +240,9 @@ func stopBrokerStacks() string {
 }
 
 // isNoise: events that do not count for the stop index (every scan persists the cache).
-func stopNoise(ev string) bool { return ev == "persist" }
+// stopNoise: events that are not stop indices of a sweep ("open" events come from several goroutines in no
+// fixed number; a stop is aimed at one by substring, "stopat KIND @open%20NAME").
+func stopNoise(ev string) bool { return ev == "persist" || strings.HasPrefix(ev, "open ") }
 
 func (sc *stopScenario) run(kind, spec string) *stopRun {
 	conf := defaultE2EConf()
@@ -350,15 +352,22 @@ func (sc *stopScenario) run(kind, spec string) *stopRun {
 				}
 			}
 		}
-		if stopNoise(ev) || stopped {
+		if ev == "persist" || stopped {
 			return
 		}
-		count++
+		if !stopNoise(ev) {
+			count++
+		}
 		if wantSub != "" && strings.Contains(ev, wantSub) {
 			subSeen++
 		}
-		if (wantIdx >= 0 && count == wantIdx) || (wantSub != "" && strings.Contains(ev, wantSub) && subSeen == wantNth) {
+		if (wantIdx >= 0 && count == wantIdx && !stopNoise(ev)) || (wantSub != "" && strings.Contains(ev, wantSub) && subSeen == wantNth) {
 			deliver(ev)
+			if strings.HasPrefix(ev, "open ") {
+				// the opener is held while the stop request reaches the broker's flags: the worker is then in
+				// the middle of its batch when it next looks at them
+				time.Sleep(40 * time.Millisecond)
+			}
 		}
 	}
 	if wantIdx == 0 {
@@ -1012,6 +1021,12 @@ func stopFaults(r *Rand) []string {
 func (stopComp) Generate(r *Rand, tier string, n int) [][]string {
 	var cases [][]string
 	for i := 0; i < n; i++ {
+		if i%7 == 5 {
+			th := r.Range(1, 2)
+			cases = append(cases, stopBacklog(th, r.Range(30, 50)*th,
+				fmt.Sprintf("stopat now @open%%20g.@@%d", r.Range(2, 12)), fmt.Sprintf("stopat graceful @open%%20g.@@%d", r.Range(2, 40))))
+			continue
+		}
 		conf, payload := stopConfLine(r)
 		c := []string{conf}
 		c = append(c, stopFiles(r, payload)...)
@@ -1032,8 +1047,23 @@ func (stopComp) Generate(r *Rand, tier string, n int) [][]string {
 	return cases
 }
 
+// stopBacklog: a backlog of n small files (several per payload-size batch, more batches than the hash hand-over
+// channel holds) and stops aimed at the k-th open of the scan's hashing phase.
+func stopBacklog(threads, n int, stops ...string) []string {
+	c := []string{fmt.Sprintf("conf threads=%d payload=100 chunk=0 order=alpha lastdelay=0 delete=0 attempts=50 scandelay=200", threads)}
+	for i := 0; i < n; i++ {
+		c = append(c, fmt.Sprintf("file g.f%02d 32 %d", i, 3600-i))
+	}
+	return append(c, stops...)
+}
+
 func (stopComp) Corpus() [][]string {
 	return [][]string{
+		// an immediate stop while the scan is hashing a backlog: the dispatcher of hash() sits in `ch <-` (capacity
+		// 2*threads), the worker is in the middle of a 4-file batch; the workers must keep taking batches off the
+		// channel (seed C16e: `return` for `break` in hashFiles -> Start never returns)
+		stopBacklog(1, 40, "stopat now @open%20g.@@2", "stopat now @open%20g.@@6", "stopat graceful @open%20g.@@2"),
+		stopBacklog(2, 60, "stopat now @open%20g.@@3"),
 		// one-shot run of three files in two groups, both kinds of stop at index 0 and in the middle
 		{"conf threads=2 payload=64 chunk=0 order=fifo lastdelay=0 delete=0 attempts=50 scandelay=200",
 			"file g.a 27 3600", "file g.b 150 3590", "file h.c 1 3580",
